@@ -129,7 +129,7 @@ RLeaf(u) ==
     [] k = 4 -> C2("atom_length", U, W) [] k = 5 -> C2("is", Z, C2("+", A("foo"), I(1))) [] k = 6 -> C3("arg", a, A("b"), A("c"))
     [] k = 7 -> A("zz") [] k = 8 -> Call1(I(1))
     [] k = 9 -> Eq(X, I(1)) [] k = 10 -> Eq(Y, I(1)) [] k = 11 -> T1(X) [] k = 12 -> T1(Y) [] k = 13 -> Fail [] k = 14 -> Cut
-    [] k = 15 -> True [] k = 16 -> Log(St("l")) [] k = 17 -> Ge(X, I(2)) [] k = 18 -> Eq(X, C1("s", Y)) [] k = 19 -> Eq(Z, C2("f", X, Y))
+    [] k = 15 -> True [] k = 16 -> Log(St("l")) [] k = 17 -> Conj(T1(X), Ge(X, I(2))) [] k = 18 -> Eq(X, C1("s", Y)) [] k = 19 -> Eq(Z, C2("f", X, Y))
     [] k = 20 -> Log(A("m")) [] k = 21 -> Eq(X, I(2)) [] k = 22 -> Eq(E, Y)
 RECURSIVE RGoal(_)
 RGoal(d) ==
@@ -168,5 +168,5 @@ Inv == MachineOk(m) /\ CollectorsOk(m) /\ (m.phase # "gen" => ExtOk(m))
 
 Emit == m.phase = "done" /\ m.status \in {"done", "exc"} =>
           PrintT(ToJson([fam |-> fam, prog |-> <<m.prog[1]>>, q |-> m.q, qv |-> m.qv, ans |-> m.ans, status |-> m.status,
-                         ball |-> m.ball, out |-> m.out, unspec |-> m.unspec, ncl |-> Len(m.cl), steps |-> m.steps]))
+                         ball |-> m.ball, out |-> m.out, unspec |-> m.unspec, nestcut |-> m.nestcut, ncl |-> Len(m.cl), steps |-> m.steps]))
 =============================================================================
